@@ -59,7 +59,7 @@ template <> struct ToStringBuf<const void*> {
 };
 
 // Maximum over this and float.
-enum { kToStringMaxBytes = 20 };
+enum { kToStringMaxBytes = 26 };
 
 } // namespace util
 
